@@ -245,12 +245,43 @@ Section Support.
         end
     end.
 
-  (** shortcut_connections of __init__: argmax / argmin of each coordinate column *)
-  Definition shortcut_connections (vs : list (V3 F)) : option (list nat) :=
-    match argmax (map vx vs), argmax (map vy vs), argmax (map vz vs),
-          argmin (map vx vs), argmin (map vy vs), argmin (map vz vs) with
-    | Some a, Some b, Some c, Some a', Some b', Some c' => Some [a; b; c; a'; b'; c']
-    | _, _, _, _, _, _ => None
+  (** np.unique(triangles): the sorted list of the vertex indices that occur in a triangle *)
+  Fixpoint insert_u (x : nat) (l : list nat) : list nat :=
+    match l with
+    | [] => [x]
+    | y :: l' => if Nat.ltb x y then x :: l else if Nat.eqb x y then l else y :: insert_u x l'
+    end.
+  Definition used_indices (ts : list (nat * nat * nat)) : list nat :=
+    fold_left (fun acc t => let '(i, j, k) := t in insert_u k (insert_u j (insert_u i acc))) ts [].
+
+  Fixpoint gather (vs : list (V3 F)) (idx : list nat) : option (list (V3 F)) :=
+    match idx with
+    | [] => Some []
+    | i :: idx' =>
+        match nth_error vs i, gather vs idx' with
+        | Some v, Some r => Some (v :: r)
+        | _, _ => None
+        end
+    end.
+
+  (** shortcut_connections of __init__ (since /repo 18da548, finding F-M2):
+        used = np.unique(triangles); used_vertices = self.vertices[used]
+        used[[argmax x, argmax y, argmax z, argmin x, argmin y, argmin z of used_vertices]]
+      (before, the extremes were taken over ALL rows of vertices, also those no triangle uses) *)
+  Definition shortcut_connections (vs : list (V3 F)) (used : list nat) : option (list nat) :=
+    match gather vs used with
+    | None => None
+    | Some uv =>
+        match argmax (map vx uv), argmax (map vy uv), argmax (map vz uv),
+              argmin (map vx uv), argmin (map vy uv), argmin (map vz uv) with
+        | Some a, Some b, Some c, Some a', Some b', Some c' =>
+            match nth_error used a, nth_error used b, nth_error used c,
+                  nth_error used a', nth_error used b', nth_error used c' with
+            | Some a, Some b, Some c, Some a', Some b', Some c' => Some [a; b; c; a'; b'; c']
+            | _, _, _, _, _, _ => None
+            end
+        | _, _, _, _, _, _ => None
+        end
     end.
 
   (** MeshHillClimbingSupportFunction.__call__ : state = first_idx (the cached vertex);
